@@ -141,10 +141,7 @@ Definition gauge_credit (cfg : config) (thr : Z -> tval) (g : gauge) (ls : list 
   | None => 0
   | Some remain =>
       if negb (g_pool g =? 0) then
-        match nolock_coins (remain_epochs g) remain [] with
-        | Some total => if pool_addr (g_pool g) =? a then amount_of total d else 0
-        | None => 0
-        end
+        (if pool_addr (g_pool g) =? a then amount_of (nolock_coins (remain_epochs g) remain []) d else 0)
       else
       if is_empty ls || is_empty remain || is_small_gauge cfg remain ||
          (sum_locks ls =? 0) || (2 ^ max_int_bits <=? sum_locks ls) then 0
@@ -163,7 +160,7 @@ Proof.
   destruct (remain_epochs g =? 0); [discriminate|].
   destruct (negb (g_pool g =? 0)) eqn:Pl.
   { apply negb_true_iff, Z.eqb_neq in Pl. assert (Pa : pool_addr (g_pool g) < 0) by (unfold pool_addr; lia).
-    destruct (nolock_coins (remain_epochs g) remain []) as [total|]; [|discriminate]. inversion H; subst; clear H.
+    inversion H; subst; clear H. set (total := nolock_coins (remain_epochs g) remain []).
     destruct (is_empty total) eqn:E.
     - destruct total; [|discriminate]. repeat split; auto. intros a d. cbn [amount_of]. destruct (pool_addr (g_pool g) =? a); lia.
     - split; [apply add_pool_rewards_ok; auto|]. split; auto. intros a d. rewrite add_lock_rewards_recv; [reflexivity|].
